@@ -264,7 +264,7 @@ def c14_units(case):
     return ok, bad, table
 
 
-def check_c14(tier, seed):
+def _check_c14(tier, seed, macro_profile="macrodev"):
     t0 = time.time()
     res = props.Result("C14")
     cases = []
@@ -288,7 +288,7 @@ def check_c14(tier, seed):
     nontrivial = set()
     with build.Lock():
         build.snapshot()
-        art = cm.artifacts("macrodev")
+        art = cm.artifacts(macro_profile)
         eo, so = cm.outcomes(ok_units, art, "c14-ok", iterate=False)
         eb, sb = cm.outcomes(bad_units, art, "c14-bad", iterate=False)
     cov["rustc"] = dict(ok=so, bad=sb)
@@ -430,7 +430,7 @@ def field_shape(f):
     return ("list-" if len(f["ranges"]) > 1 else "") + f["kind"] + ("[]" if f["array"] else "")
 
 
-def check_c17(tier, seed):
+def _check_c17(tier, seed, macro_profile="macrodev"):
     t0 = time.time()
     res = props.Result("C17")
     cases = []
@@ -451,7 +451,7 @@ def check_c17(tier, seed):
             bad_units.append(bad)
     with build.Lock():
         build.snapshot()
-        art = cm.artifacts("macrodev")
+        art = cm.artifacts(macro_profile)
         eo, so = cm.outcomes(ok_units, art, "c17-ok", iterate=False)
         eb, sb = cm.outcomes(bad_units, art, "c17-bad", iterate=False)
     cov = dict(evaluations=0, distinct_nontrivial=0, rule="", samples=[], cases=len(cases), present_probes=0, present_ok=0, absent_probes=0, absent_ok=0,
@@ -539,6 +539,13 @@ def c17_extra_cases():
             out.append(bitfield_case("ad_%s" % (acc or "none"), "c17", 32, [uint_field("a", [(0, 7)]), uint_field("key", [(8, 15)], access=acc), bool_field("flag", 16, access=acc),
                                                                              enum_field("mode", [(17, 18)], ex, access=acc)], helpers=[ex], debug=True, name="Reg", tags=["debug-with-unreadable-field"]))
         full_e = std_enum("Ex", 8, True)
+        # more fields than a machine word has bits: access of field i must not leak into field i +- 32 / 64
+        order = {"r": ("w", "", "rw", "r"), "w": ("r", "rw", "", "w"), "rw": ("", "r", "w", "rw"), "": ("rw", "w", "r", "")}[acc]
+        out.append(bitfield_case("am_%s_34" % (acc or "none"), "c17", 64, [bool_field("f%d" % k, k, access=(acc if k in (0, 33) else order[k % 4])) for k in range(34)], name="Reg"))
+        out.append(bitfield_case("am_%s_70" % (acc or "none"), "c17", 128, [bool_field("f%d" % k, k, access=(acc if k % 32 == 1 else order[(k // 32 + k) % 4])) for k in range(70)], name="Reg"))
+        # exact twins: the same bits and type under different access
+        out.append(bitfield_case("aw_%s" % (acc or "none"), "c17", 32, [uint_field("ctrl", [(0, 7)], access="rw"), uint_field("twin", [(0, 7)], access=acc), uint_field("w2", [(0, 7)], access=order[0]),
+                                                                        bool_field("b", 9, access=order[1]), bool_field("b_twin", 9, access=acc)], name="Reg"))
         out.append(bitfield_case("ae_%s" % (acc or "none"), "c17", 8, [enum_field("all", [(0, 7)], full_e, access=acc)], helpers=[full_e], name="Reg"))
         inner16 = nested_def("In", 16)
         out.append(bitfield_case("an_%s" % (acc or "none"), "c17", 16, [nested_field("all", [(0, 15)], inner16, access=acc)], helpers=[inner16], name="Reg"))
@@ -662,7 +669,7 @@ def idents_of(case):
     return out
 
 
-def check_c18(tier, seed):
+def _check_c18(tier, seed, macro_profile="macrodev"):
     t0 = time.time()
     res = props.Result("C18")
     fams = ["mixed", "custom", "array", "nc", "enumf", "base", "bld", "dbgf"] + (["single"] if tier == "thorough" else [])
@@ -680,7 +687,7 @@ def check_c18(tier, seed):
     dump = os.path.join(cm.CM, "c18-dump")
     with build.Lock():
         build.snapshot()
-        art = cm.artifacts("macrodev")
+        art = cm.artifacts(macro_profile)
         expmon = build_expmon()
         _shutil.rmtree(dump, ignore_errors=True)
         os.makedirs(dump)
@@ -814,3 +821,45 @@ def check_c15(tier, seed):
         if missing:
             raise Inconclusive("coverage floor missed: operations never evaluated in const context: %s" % missing)
     return res
+
+
+
+# ------------------------------------------------------------------------------------------------
+# thorough tier: C14 / C17 / C18 are evaluated with a dev-built and a release-built macro
+# ------------------------------------------------------------------------------------------------
+
+def _both_macro_profiles(prop, fn, tier, seed):
+    import json
+    profiles = ["macrodev"] if tier == "quick" else ["macrodev", "macrorel"]
+    merged = props.Result(prop)
+    covs = {}
+    total_wall = 0.0
+    last = None
+    for mp in profiles:
+        res = fn(tier, seed, mp)
+        for sig, rec in res.violations:
+            merged.violations.append((sig, dict(rec, macro_profile=mp)))
+        merged.notes += res.notes
+        with open(os.path.join(build.EVIDENCE, "%s.json" % prop)) as f:
+            last = json.load(f)
+        covs[mp] = last["coverage"]
+        total_wall += last["wall_s"]
+    if len(profiles) > 1:
+        cov = dict(covs[profiles[0]])
+        cov["evaluations"] = sum(c["evaluations"] for c in covs.values())
+        cov["macro_profiles"] = profiles
+        cov["per_macro_profile"] = {mp: {k: v for k, v in c.items() if isinstance(v, (int, float)) and not isinstance(v, bool)} for mp, c in covs.items()}
+        props.write_evidence(prop, tier, seed, cov, total_wall, len(merged.violations), last.get("assumptions", []))
+    return merged
+
+
+def check_c14(tier, seed):
+    return _both_macro_profiles("C14", _check_c14, tier, seed)
+
+
+def check_c17(tier, seed):
+    return _both_macro_profiles("C17", _check_c17, tier, seed)
+
+
+def check_c18(tier, seed):
+    return _both_macro_profiles("C18", _check_c18, tier, seed)
